@@ -6,6 +6,7 @@
      [t|->"tuple",v]  [t|->"range",a,b,c]  [t|->"bi",name]  (builtin function)
      [t|->"bm",name,self]  (bound method)  [t|->"ref",a]  (address into the object store)
      [t|->"unbound"]  (slot declared but not assigned)
+     [t|->"struct",ks,vs]  (immutable record: field names as code point sequences, in creation order)
    The object store `h` is a sequence of objects:
      [kind|->"list", items, locks, frozen]     [kind|->"dict", keys, vals, locks, frozen]
      [kind|->"frame", names, vals]             [kind|->"fn", name, params, defaults, body, env, lam]
@@ -26,6 +27,8 @@ RangeV(a, b, c) == [t |-> "range", a |-> a, b |-> b, c |-> c]
 BiV(n) == [t |-> "bi", name |-> n]
 BmV(n, self) == [t |-> "bm", name |-> n, self |-> self]
 UnboundV == [t |-> "unbound"]
+StructV(ks, vs) == [t |-> "struct", ks |-> ks, vs |-> vs]
+FieldIdx(ks, n) == IF \E i \in 1..Len(ks) : ks[i] = n THEN CHOOSE i \in 1..Len(ks) : ks[i] = n ELSE 0
 
 Limit == 1073741824   \* 2^30
 
@@ -53,6 +56,7 @@ TypeName(v, h) ==
     ELSE IF v.t = "range" THEN "range"
     ELSE IF v.t = "bi" \/ v.t = "bm" THEN "builtin_function_or_method"
     ELSE IF v.t = "ref" THEN (IF h[v.a].kind = "fn" THEN "function" ELSE h[v.a].kind)
+    ELSE IF v.t = "struct" THEN "struct"
     ELSE "?"
 
 TypeNameCP(v, h) ==
@@ -64,6 +68,7 @@ TypeNameCP(v, h) ==
     ELSE IF v.t = "range" THEN <<114, 97, 110, 103, 101>>
     ELSE IF v.t = "bi" \/ v.t = "bm" THEN <<98, 117, 105, 108, 116, 105, 110, 95, 102, 117, 110, 99, 116, 105, 111, 110, 95, 111, 114, 95, 109, 101, 116, 104, 111, 100>>
     ELSE IF v.t = "ref" THEN (IF h[v.a].kind = "fn" THEN <<102, 117, 110, 99, 116, 105, 111, 110>> ELSE IF h[v.a].kind = "list" THEN <<108, 105, 115, 116>> ELSE IF h[v.a].kind = "set" THEN <<115, 101, 116>> ELSE <<100, 105, 99, 116>>)
+    ELSE IF v.t = "struct" THEN <<115, 116, 114, 117, 99, 116>>
     ELSE <<63>>
 
 (* ---- ranges ---- *)
@@ -89,6 +94,9 @@ Eq(a, b, h) ==
     ELSE IF a.t = "range" THEN RangeItems(a) = RangeItems(b)
     ELSE IF a.t = "bi" THEN a.name = b.name
     ELSE IF a.t = "bm" THEN (a.name = b.name /\ Eq(a.self, b.self, h))
+    ELSE IF a.t = "struct" THEN      \* same fields (in any order), equal values
+        (Len(a.ks) = Len(b.ks)
+         /\ \A i \in 1..Len(a.ks) : LET j == FieldIdx(b.ks, a.ks[i]) IN j # 0 /\ Eq(a.vs[i], b.vs[j], h))
     ELSE IF a.t = "ref" THEN
         (IF a.a = b.a THEN TRUE
          ELSE LET x == h[a.a] y == h[b.a] IN
@@ -138,6 +146,7 @@ RECURSIVE Hashable(_, _)
 Hashable(v, h) ==
     IF v.t \in {"none", "bool", "int", "str", "bi", "range"} THEN TRUE
     ELSE IF v.t = "tuple" THEN \A i \in 1..Len(v.v) : Hashable(v.v[i], h)
+    ELSE IF v.t = "struct" THEN \A i \in 1..Len(v.vs) : Hashable(v.vs[i], h)
     ELSE IF v.t = "ref" THEN h[v.a].kind = "fn"
     ELSE FALSE
 
@@ -211,6 +220,9 @@ Repr(v, h, fuel) ==
         (<<123>> \o JoinSeq([i \in 1..Len(h[v.a].keys) |->
                     Repr(h[v.a].keys[i], h, fuel - 1) \o <<58, 32>> \o Repr(h[v.a].vals[i], h, fuel - 1)],
                   <<44, 32>>, 1) \o <<125>>)
+    ELSE IF v.t = "struct" THEN
+        (<<115, 116, 114, 117, 99, 116, 40>>
+           \o JoinSeq([i \in 1..Len(v.ks) |-> v.ks[i] \o <<61>> \o Repr(v.vs[i], h, fuel - 1)], <<44, 32>>, 1) \o <<41>>)
     ELSE <<63>>
 Str(v, h) == IF v.t = "str" THEN v.s ELSE Repr(v, h, 8)
 
@@ -221,6 +233,7 @@ ReprDomain(v, h, fuel) ==
     ELSE IF v.t \in {"none", "bool", "int", "range"} THEN TRUE
     ELSE IF v.t = "str" THEN ReprOk(v.s)
     ELSE IF v.t = "tuple" THEN \A i \in 1..Len(v.v) : ReprDomain(v.v[i], h, fuel - 1)
+    ELSE IF v.t = "struct" THEN \A i \in 1..Len(v.vs) : ReprDomain(v.vs[i], h, fuel - 1)
     ELSE IF IsList(v, h) \/ IsSet(v, h) THEN \A i \in 1..Len(h[v.a].items) : ReprDomain(h[v.a].items[i], h, fuel - 1)
     ELSE IF IsDict(v, h) THEN
         \A i \in 1..Len(h[v.a].keys) : ReprDomain(h[v.a].keys[i], h, fuel - 1) /\ ReprDomain(h[v.a].vals[i], h, fuel - 1)
@@ -279,6 +292,7 @@ Enc(v, h, path) ==
     ELSE IF v.t = "str" THEN [t |-> "str", s |-> v.s]
     ELSE IF v.t = "tuple" THEN [t |-> "tuple", v |-> [i \in 1..Len(v.v) |-> Enc(v.v[i], h, path)]]
     ELSE IF v.t = "range" THEN [t |-> "range", v |-> <<v.a, v.b, v.c>>]
+    ELSE IF v.t = "struct" THEN [t |-> "struct", k |-> v.ks, v |-> [i \in 1..Len(v.vs) |-> Enc(v.vs[i], h, path)]]
     ELSE IF v.t = "bi" \/ v.t = "bm" THEN [t |-> "fn", name |-> v.name]
     ELSE IF v.t = "ref" THEN
         (IF v.a \in path THEN [t |-> "cycle"]
@@ -307,6 +321,10 @@ EncEq(a, b) ==
         (Len(a.k) = Len(b.k) /\ Len(a.v) = Len(b.v)
          /\ \A i \in 1..Len(a.k) : EncEq(a.k[i], b.k[i]) /\ EncEq(a.v[i], b.v[i]))
     ELSE IF a.t = "range" THEN (\A i \in 1..3 : a.v[i] = b.v[i])
+    ELSE IF a.t = "struct" THEN
+        (Len(a.k) = Len(b.k) /\ Len(a.v) = Len(b.v) /\ Len(a.k) = Len(a.v)
+         /\ \A i \in 1..Len(a.k) : (Len(a.k[i]) = Len(b.k[i]) /\ \A j \in 1..Len(a.k[i]) : a.k[i][j] = b.k[i][j])
+                                    /\ EncEq(a.v[i], b.v[i]))
     ELSE IF a.t = "fn" THEN a.name = b.name
     ELSE FALSE
 OutEq(o1, o2) == Len(o1) = Len(o2) /\ \A i \in 1..Len(o1) : EncEq(o1[i], o2[i])
